@@ -123,6 +123,42 @@ def run_bytes(ctx, pt):
         ctx.eq('C01/%s/bitlen-equals-8n' % a, r, ('ok', ref(a, m)))
 
 
+def sum0(a, nblocks, variant):
+    """blocks whose words (32- or 64-bit, in the algorithm's byte order) add up to 0 modulo 2^w although the block is not
+    zero: a relation between far-apart parts of the input"""
+    B, cs = geom(a)
+    wb = 8 if B == 1024 else 4
+    order = 'little' if a in ('md4', 'md5') else 'big'
+    out = b''
+    for k in range(nblocks):
+        if variant == 0:
+            words = [int.from_bytes(expander(wb, 60 + k + j), 'big') for j in range(15)]
+            words.append((-sum(words)) % (1 << (8 * wb)))
+        elif variant == 1:
+            words = [1 << (8 * wb - 1), 1 << (8 * wb - 1)] + [0] * 14
+        else:
+            words = [0] * 14 + [1, (1 << (8 * wb)) - 1]
+        out += b''.join(w.to_bytes(wb, order) for w in words)
+    return out
+
+
+def pts_values(tier):
+    return [(a, nb, v) for a in ALGS for nb in (1, 2) for v in (0, 1, 2)] + \
+           ([(a, 0, 'big') for a in ('md4', 'md5')] if tier == 'thorough' else [])
+
+
+def run_values(ctx, pt):
+    a, nb, v = pt
+    if v == 'big':
+        m = expander(64, 3) * ((1 << 14) + 1) + b'xyz'       # one-shot message of more than 1 MiB (sampled, thorough only)
+        ctx.eq('C01/%s/byte-digest/more-than-1MiB' % a, ctx.attempt(lambda: mk(a)(m)), ('ok', ref(a, m)))
+        return
+    for tail in (b'', b'abc'):
+        m = sum0(a, nb, v) + tail
+        ctx.eq('C01/%s/byte-digest/blocks-with-word-sum-zero' % a, ctx.attempt(lambda: mk(a)(m)), ('ok', ref(a, m)))
+        ctx.eq('C01/%s/byte-digest/blocks-with-word-sum-zero' % a, ctx.attempt(lambda: mk(a)(b'\x01' + m)), ('ok', ref(a, b'\x01' + m)))
+
+
 def pts_container(tier):
     pts = []
     for a in ALGS:
@@ -211,6 +247,8 @@ def subchecks():
             bound='10 algorithms x every bit length 1..2B+cs+16 x 3 data patterns (quick: +-9 bits around 0, B-cs-1, B, 2B-cs-1, 2B, one pattern)'),
         Sub('byte-lengths', pts_bytes, run_bytes, engine='P',
             bound='every byte length 0..4 blocks+1 (quick 0..2 blocks+9) with the ramp; 5 more patterns at 0..B/32+1 bytes; long messages of 5, 8, 16, 17, 33 (thorough 64, 65, 129) blocks -1/0/+1 byte; with and without bitlen=8n'),
+        Sub('value-relations', pts_values, run_values, engine='P', exhaustive=False,
+            bound='messages of 1-2 blocks whose words sum to zero modulo 2^w (random words + negated sum, two top-bit words, 1 and all-ones) with and without a tail and shifted by one byte; thorough: one MD4/MD5 message of more than 1 MiB'),
         Sub('container', pts_container, run_container, engine='P',
             bound='bit length L near every boundary, container 1 byte / 1 block longer than ceil(L/8)'),
         Sub('reject', pts_reject, run_reject, engine='P', bound='bitlen = 8|M| + {1,7,8,B} for |M| in {0,1,B/8-cs/8,B/8}'),
